@@ -1,19 +1,806 @@
 """
-L2: abstract collections, loop cutting, arithmetic interface (filled in later).
+L2: abstract collections (comprehensions, min/max/sum/sorted over them) and loop cutting with
+inferred (Houdini) and declared invariants.
 """
-from .sv import Unsupported
+import ast
+import z3
+from .sv import *      # noqa
+from .state import State, Out
+from .obligation import Collector
+from . import sv as _sv
 
 
-def _uns(name):
-    def f(*a, **k):
-        raise Unsupported('L2 feature not available: ' + name)
-    return f
+# =============================================================================================
+# abstract collections
+
+def elem_sort(C, ek):
+    return C.sort_of(ek)
 
 
-abs_comprehension = _uns('abstract comprehension')
-for_cut = _uns('symbolic for loop')
-while_cut = _uns('symbolic while loop')
-abs_minmax = _uns('min/max over abstract collection')
-abs_sum = _uns('sum over abstract collection')
-abs_sorted = _uns('sorted')
-abs_range = _uns('symbolic range')
+def mk_abs(C, st, ek, mem, length, base='L', distinct=False, src=None, fn=None, register=True):
+    sort = elem_sort(C, ek)
+    elem = z3.Function(fresh_name(base + '_elem'), I, sort)
+    pos = z3.Function(fresh_name(base + '_pos'), sort, I)
+    L = SAbs(ek, mem, length, elem=lambda i: elem(i), pos=lambda t: pos(t), distinct=distinct, ordered=True,
+             name=base)
+    L.src, L.fn = src, fn
+    n = length
+    f1 = lambda t: z3.Implies(mem(t), z3.And(pos(t) >= 0, pos(t) < n, elem(pos(t)) == t, n >= 1))   # noqa
+    L.facts = [f1]
+    if register and ek.startswith('ref:'):
+        st.facts.append((ek[4:], f1))
+    return L
+
+
+def index_facts(L, i):
+    "facts for an index term i with 0 <= i < len"
+    e = L.elem(i)
+    fs = [L.mem(e)]
+    if L.distinct:
+        fs.append(L.pos(e) == i)
+    return fs
+
+
+def iter_to_abs(C, it, st, fr):
+    ex = C.ex
+    if isinstance(it, SAbs):
+        return it
+    if isinstance(it, SGen):
+        outs = gen_to_abs(C, it, st)
+        if len(outs) != 1 or outs[0].kind != 'ok':
+            raise Unsupported('generator with several outcomes')
+        return outs[0].val
+    hk = ex.hooks.get('iter_abs')
+    if hk:
+        r = hk(it, st, fr)
+        if r is not None:
+            return r
+    raise Unsupported('iteration over %r' % (it,))
+
+
+def gen_to_abs(C, gen, st):
+    ex = C.ex
+    pfr = ex.frames[gen.fid]
+    e = gen.node
+    if len(e.generators) != 1:
+        raise Unsupported('nested generator')
+    g = e.generators[0]
+
+    def k(it, a):
+        items = C.concrete_items(it, a)
+        if items is not None:
+            from .loopcut import concrete_comp
+            return concrete_comp(C, e, g, items, a, pfr)
+        return abs_comprehension(C, e, g, it, a, pfr, False)
+    return ex.bind(ex.ev(g.iter, st, pfr), k)
+
+
+def pure_eval(C, expr, st, fr, what):
+    """evaluate expr in a scratch copy of st; all outcomes must be normal and leave the heap
+    unchanged.  returns [(delta_pc, value)]"""
+    ex = C.ex
+    base = st.fork()
+    npc = len(base.pc)
+    heap0 = dict(base.heap)
+    c0 = _sv._ctr[0]
+    outs = ex.ev(expr, base, fr)
+    res = []
+    for o in outs:
+        if o.kind != 'ok':
+            raise Unsupported('%s may raise %s' % (what, o.exc))
+        for k, a in o.st.heap.items():
+            if k in heap0 and not a.eq(heap0[k]):
+                raise Unsupported('%s has a side effect on %s.%s' % (what, k[0], k[1]))
+        res.append((o.st.pc[npc:], o.val, o.st))
+    return res, _sv._ctr[0] != c0
+
+
+def abs_comprehension(C, e, g, it, st, fr, as_list):
+    ex = C.ex
+    L = iter_to_abs(C, it, st, fr)
+    names = {n.id for n in ast.walk(g.target) if isinstance(n, ast.Name)}
+    if not isinstance(g.target, ast.Name):
+        raise Unsupported('comprehension target')
+    xv = z3.Const(fresh_name(g.target.id), elem_sort(C, L.ek))
+    xsv = C.wrap(L.ek, xv)
+    cfr = ex.new_frame(st, None, fr.fid, fr.owner, fr.module, locals_set=names)
+    cfr.func = fr.func
+    scratch = st.fork()
+    scratch.envs[cfr.fid] = {g.target.id: xsv}
+    scratch.assume(L.mem(xv))
+    for f in L.facts:
+        scratch.assume(f(xv))
+    if isinstance(xsv, SRef):
+        scratch.note_ref(xsv.cname, xv)
+    cond = z3.BoolVal(True)
+    for c in g.ifs:
+        res, fresh = pure_eval(C, c, scratch, cfr, 'comprehension filter')
+        if fresh:
+            raise Unsupported('comprehension filter introduces new symbols')
+        parts = []
+        for dpc, v, s2 in res:
+            parts.append(z3.And(*(list(dpc) + [ex.truth(v, s2, cfr)])))
+        cc = z3.Or(*parts) if len(parts) > 1 else parts[0]
+        cond = z3.And(cond, cc)
+        scratch.assume(cc)
+    cond = z3.simplify(cond)
+    # element expression
+    identity = isinstance(e.elt, ast.Name) and e.elt.id == g.target.id
+    mem = lambda t, _c=cond, _x=xv: z3.And(L.mem(t), z3.substitute(_c, (_x, t)))    # noqa
+    n = fresh_int('len_comp')
+    st.assume(n >= 0)
+    st.assume(n <= L.length)
+    if z3.is_true(cond):
+        st.assume(n == L.length)
+    if identity:
+        R = mk_abs(C, st, L.ek, mem, n, base='comp', distinct=L.distinct)
+        R.facts = R.facts + L.facts
+        # non-empty <=> has a member : witness
+        w = z3.Const(fresh_name('wit'), elem_sort(C, L.ek))
+        st.assume(z3.Implies(n >= 1, mem(w)))
+        for f in L.facts:
+            st.assume(z3.Implies(n >= 1, f(w)))
+        if L.ek.startswith('ref:'):
+            st.note_ref(L.ek[4:], w)
+        return ex.ok(R, st)
+    res, fresh = pure_eval(C, e.elt, scratch, cfr, 'comprehension element')
+    if len(res) != 1:
+        raise Unsupported('comprehension element with several outcomes')
+    if fresh and not isinstance(res[0][1], SStr):
+        raise Unsupported('comprehension element introduces new symbols')
+    val = res[0][1]
+    if isinstance(val, (SInt, SVal, SRef, SStr, SBool)):
+        vt = val.t
+        ek2 = {'int': 'int', 'val': 'val', 'str': 'str', 'bool': 'bool'}.get(val.kind) or ('ref:' + val.cname)
+        fn = lambda t, _v=vt, _x=xv: z3.substitute(_v, (_x, t))     # noqa
+        src = SAbs(L.ek, mem, n, elem=L.elem, pos=L.pos, distinct=L.distinct, facts=L.facts, name='src')
+        y = z3.Const(fresh_name('y'), elem_sort(C, L.ek))
+        mem2 = lambda v, _y=y: z3.Exists([_y], z3.And(mem(_y), fn(_y) == v))       # noqa
+        R = SAbs(ek2, mem2, n, distinct=False, name='map')
+        R.src, R.fn = src, fn
+        w = z3.Const(fresh_name('wit'), elem_sort(C, L.ek))
+        st.assume(z3.Implies(n >= 1, mem(w)))
+        for f in L.facts:
+            st.assume(z3.Implies(n >= 1, f(w)))
+        if L.ek.startswith('ref:'):
+            st.note_ref(L.ek[4:], w)
+        R.witness = w
+        return ex.ok(R, st)
+    raise Unsupported('comprehension element %r' % (val,))
+
+
+def abs_minmax(C, is_min, arg, st, fr):
+    ex = C.ex
+    L = iter_to_abs(C, arg, st, fr)
+    fn = getattr(L, 'fn', None)
+    src = getattr(L, 'src', None)
+    if fn is None:
+        if L.ek in ('int', 'val'):
+            src, fn = L, (lambda t: t)
+        else:
+            raise Unsupported('min/max over %s elements' % L.ek)
+    if ex.instance == 'guarded' and L.ek == 'val':
+        raise Unsupported('min/max with tolerant comparison')
+
+    def nonempty(s):
+        r = fresh_int('min' if is_min else 'max') if not (L.ek == 'val' and ex.instance == 'real') else fresh_real('m')
+        w = z3.Const(fresh_name('argm'), elem_sort(C, src.ek))
+        s.assume(src.mem(w))
+        s.assume(fn(w) == r)
+        for f in src.facts:
+            s.assume(f(w))
+        fact = (lambda t: z3.Implies(src.mem(t), r <= fn(t))) if is_min else \
+               (lambda t: z3.Implies(src.mem(t), r >= fn(t)))
+        if src.ek.startswith('ref:'):
+            s.facts.append((src.ek[4:], fact))
+            s.note_ref(src.ek[4:], w)
+        return ex.ok(C.wrap(L.ek, r), s)
+    return ex.split(L.length >= 1, st, nonempty, lambda s: ex.exc('ValueError', s))
+
+
+def abs_sum(C, arg, start, st, fr):
+    ex = C.ex
+    L = iter_to_abs(C, arg, st, fr)
+    if L.ek not in ('int', 'val'):
+        raise Unsupported('sum over %s' % L.ek)
+    real = L.ek == 'val' and ex.instance == 'real'
+    total = fresh_real('sum') if real else fresh_int('sum')
+    fn = getattr(L, 'fn', None)
+    src = getattr(L, 'src', None)
+    st.assume(z3.Implies(L.length == 0, total == 0))
+    hk = ex.hooks.get('abs_sum')
+    if hk:
+        hk(L, total, st, fr)
+    if fn is not None and src.ek.startswith('ref:'):
+        # if every term is >= 0 (asked per known element): total >= each term ; recorded as a ghost for lemmas
+        st.ghost.setdefault('sums', [])
+        st.ghost['sums'] = st.ghost['sums'] + [(total, src, fn)]
+    if isinstance(start, SVal):
+        return ex.ok(SVal(start.t + total), st)
+    if isinstance(start, SInt):
+        if L.ek == 'val':
+            return ex.ok(SVal(total), st) if z3.is_int_value(z3.simplify(start.t)) and \
+                z3.simplify(start.t).as_long() == 0 else ex.exc('TypeError', st)
+        return ex.ok(SInt(start.t + total), st)
+    raise Unsupported('sum start %r' % (start,))
+
+
+def abs_sorted(C, arg, kw, st, fr):
+    ex = C.ex
+    items = C.concrete_items(arg, st)
+    if items is not None and len(items) <= 1:
+        return ex.ok(st.new_list(items), st)
+    L = iter_to_abs(C, arg, st, fr)
+    key = kw.get('key')
+    rev = kw.get('reverse', SBool(False))
+    R = mk_abs(C, st, L.ek, L.mem, L.length, base='sorted', distinct=L.distinct)
+    R.facts = R.facts + L.facts
+    R.sort_key, R.sort_rev = key, rev
+    hk = ex.hooks.get('sorted')
+    if hk:
+        hk(R, L, key, rev, st, fr)
+    return ex.ok(R, st)
+
+
+def abs_range(C, args, st):
+    ts = [a.t for a in args]
+    lo, hi = (z3.IntVal(0), ts[0]) if len(ts) == 1 else (ts[0], ts[1])
+    if len(ts) == 3:
+        step = z3.simplify(ts[2])
+        if not (z3.is_int_value(step) and step.as_long() == -1):
+            raise Unsupported('range step')
+        # range(a, b, -1): a, a-1, ..., b+1
+        n = z3.If(lo > hi, lo - hi, 0)
+        return SAbs('int', lambda t: z3.And(t <= lo, t > hi), n, elem=lambda i: lo - i, pos=lambda t: lo - t,
+                    distinct=True, ordered=True, name='range')
+    n = z3.If(hi > lo, hi - lo, 0)
+    return SAbs('int', lambda t: z3.And(t >= lo, t < hi), n, elem=lambda i: lo + i, pos=lambda t: t - lo,
+                distinct=True, ordered=True, name='range')
+
+
+# =============================================================================================
+# loop cutting
+
+class Muted:
+    "context manager: obligations emitted inside go to a scratch collector"
+    def __init__(self, ex):
+        self.ex = ex
+
+    def __enter__(self):
+        self.saved = self.ex.col
+        self.ex.col = Collector()
+        self.sites = dict(self.ex.site_counts)
+        return self.ex.col
+
+    def __exit__(self, *a):
+        self.ex.col = self.saved
+        self.ex.site_counts = self.sites
+
+
+def fresh_like(C, v, base):
+    if isinstance(v, SInt):
+        return SInt(fresh_int(base))
+    if isinstance(v, SBool):
+        return SBool(fresh_bool(base))
+    if isinstance(v, SVal):
+        return SVal(fresh_real(base) if z3.is_real(v.t) else fresh_int(base))
+    if isinstance(v, SStr):
+        return SStr(t=fresh_int(base))
+    if isinstance(v, SRef):
+        return SRef(v.cls, fresh_int(base))
+    if isinstance(v, SOpt):
+        return SOpt(fresh_bool(base + '_none'), fresh_like(C, v.inner, base))
+    if isinstance(v, SAny):
+        return SAny(z3.Const(fresh_name(base), C.AnyT))
+    if isinstance(v, SNone):
+        return v
+    if isinstance(v, STuple):
+        return STuple([fresh_like(C, x, base) for x in v.items])
+    if isinstance(v, (SFunc, SClass, SModule, SBuiltin, SLambda)) or v.kind == 'vclass':
+        return v
+    raise Unsupported('loop-carried variable of kind %s' % v.kind)
+
+
+def same_sv(a, b):
+    if a is b:
+        return True
+    if type(a) is not type(b):
+        return False
+    if isinstance(a, (SInt, SBool, SVal, SStr, SAny)):
+        return a.t.eq(b.t)
+    if isinstance(a, SRef):
+        return a.cname == b.cname and a.t.eq(b.t)
+    if isinstance(a, SOpt):
+        return a.isnone.eq(b.isnone) and same_sv(a.inner, b.inner)
+    if isinstance(a, SNone):
+        return True
+    if isinstance(a, STuple):
+        return len(a.items) == len(b.items) and all(same_sv(x, y) for x, y in zip(a.items, b.items))
+    if isinstance(a, SList):
+        return a.lid == b.lid
+    return False
+
+
+def free_consts(t, limit=20000):
+    out = set()
+    todo = [t]
+    seen = set()
+    while todo:
+        x = todo.pop()
+        i = x.get_id()
+        if i in seen:
+            continue
+        seen.add(i)
+        if len(seen) > limit:
+            return None
+        if z3.is_quantifier(x):
+            todo.append(x.body())
+            continue
+        if z3.is_app(x):
+            if x.num_args() == 0 and x.decl().kind() == z3.Z3_OP_UNINTERPRETED:
+                out.add(x.decl().name())
+            todo.extend(x.children())
+    return out
+
+
+def store_indices(post, base):
+    "indices of the Store chain from base to post, or None when post is not such a chain"
+    idx = []
+    t = post
+    n = 0
+    while not t.eq(base):
+        if z3.is_app(t) and t.decl().kind() == z3.Z3_OP_STORE:
+            idx.append(t.arg(1))
+            t = t.arg(0)
+            n += 1
+            if n > 200:
+                return None
+        else:
+            return None
+    return idx
+
+
+class Writes:
+    def __init__(self):
+        self.heap = set()       # heap keys
+        self.at = {}            # heap key -> list of index terms (None: anywhere)
+        self.locals = {}        # (fid, name) -> sample SV after
+        self.cattr = set()
+        self.ghost = set()
+
+    def merge(self, other):
+        n0 = (len(self.heap), len(self.locals), len(self.cattr), len(self.ghost),
+              sum(len(v) if v is not None else -1 for v in self.at.values()))
+        for k in other.heap:
+            oi = other.at.get(k)
+            if k not in self.heap:
+                self.at[k] = list(oi) if oi is not None else None
+            elif self.at.get(k) is not None:
+                if oi is None:
+                    self.at[k] = None
+                else:
+                    for t in oi:
+                        if not any(t.eq(u) for u in self.at[k]):
+                            self.at[k].append(t)
+        self.heap |= other.heap
+        self.locals.update(other.locals)
+        self.cattr |= other.cattr
+        self.ghost |= other.ghost
+        return n0 != (len(self.heap), len(self.locals), len(self.cattr), len(self.ghost),
+                      sum(len(v) if v is not None else -1 for v in self.at.values()))
+
+
+def diff_state(pre, post, live_fids, havoc_names=None):
+    w = Writes()
+    for k, a in post.heap.items():
+        o = pre.heap.get(k)
+        if o is None:
+            # first touched inside the loop: written only if it is no longer the initial array
+            if not (z3.is_const(a) and a.decl().name().startswith('H0_')):
+                w.heap.add(k)
+                w.at[k] = None
+        elif not a.eq(o):
+            w.heap.add(k)
+            idx = store_indices(a, o)
+            if idx is not None and havoc_names is not None:
+                ok = []
+                for t in idx:
+                    fc = free_consts(t)
+                    if fc is None or (fc & havoc_names):
+                        ok = None
+                        break
+                    ok.append(t)
+                w.at[k] = ok
+            else:
+                w.at[k] = None
+    for fid in live_fids:
+        e0 = pre.envs.get(fid, {})
+        for name, v in post.envs.get(fid, {}).items():
+            if name not in e0 or not same_sv(e0[name], v):
+                w.locals[(fid, name)] = v
+    for k, v in post.cattr.items():
+        o = pre.cattr.get(k)
+        if o is None or not same_sv(o, v):
+            w.cattr.add(k)
+    for k, v in post.ghost.items():
+        if isinstance(k, str) and k.startswith('g:'):
+            o = pre.ghost.get(k)
+            if o is None or not same_sv(o, v):
+                w.ghost.add(k)
+    for lid, items in post.lists.items():
+        o = pre.lists.get(lid)
+        if o is not None and (len(o) != len(items) or any(not same_sv(x, y) for x, y in zip(o, items))):
+            raise Unsupported('concrete list mutated inside a symbolic loop')
+    return w
+
+
+def live_frames(ex, fr):
+    fids = []
+    f = fr
+    while f is not None:
+        fids.append(f.fid)
+        f = ex.frames.get(f.parent_fid) if f.parent_fid else None
+    return fids
+
+
+def havoc_state(C, st, W, tag):
+    "returns a fork of st with everything in W replaced by fresh symbols"
+    s = st.fork()
+    names = set()
+
+    def nm(base):
+        n = fresh_name(base)
+        names.add(n)
+        return n
+    for k in W.heap:
+        old = s.heap.get(k)
+        if old is not None:
+            at = W.at.get(k)
+            if at is not None:
+                # written only at loop-invariant objects: everything else keeps its value (frame)
+                arr = old
+                for t in at:
+                    arr = z3.Store(arr, t, z3.Const(nm('hv_%s' % k[1]), old.sort().range()))
+                s.heap[k] = arr
+            else:
+                s.heap[k] = z3.Const(nm('Hv_%s_%s' % (k[0].rsplit('.', 1)[-1], k[1])), old.sort())
+        else:
+            s.heap.pop(k, None)
+    s.ghost['_havoc_names'] = names
+    for (fid, name), sample in W.locals.items():
+        cur = s.envs.get(fid, {}).get(name)
+        if cur is None:
+            continue        # first bound inside the loop: stays unbound at the head
+        if cur.kind != sample.kind:
+            if isinstance(cur, SNone) and not isinstance(sample, SNone):
+                s.envs[fid][name] = SOpt(fresh_bool(name + '_none'), fresh_like(C, sample, name))
+                continue
+            if isinstance(cur, SOpt):
+                s.envs[fid][name] = fresh_like(C, cur, name)
+                continue
+            raise Unsupported('loop changes the kind of %s (%s -> %s)' % (name, cur.kind, sample.kind))
+        s.envs[fid][name] = fresh_like(C, cur, name)
+    for k in W.cattr:
+        cur = s.cattr.get(k)
+        if cur is not None:
+            s.cattr[k] = fresh_like(C, cur, k[1])
+    for k in W.ghost:
+        cur = s.ghost.get(k)
+        if cur is not None:
+            s.ghost[k] = fresh_like(C, cur, k[2:])
+    return s
+
+
+class LoopSpec:
+    def __init__(self):
+        self.invariants = []    # (label, callable(st, fr, i_term or None, pre_state) -> z3 Bool, required)
+        self.variant = None     # callable(st, fr) -> z3 Int
+
+
+def user_loop_spec(C, s, fr, kind):
+    "invariants / variant declared for this loop in a sidecar @loops block (anchor = kind#ordinal)"
+    ex = C.ex
+    spec = LoopSpec()
+    func = fr.func
+    if func is None:
+        return spec, None
+    # ordinal of this loop among loops of the same kind in the function (source order)
+    nodes = [n for n in ast.walk(func.node) if isinstance(n, ast.While if kind == 'while' else ast.For)]
+    nodes.sort(key=lambda n: (n.lineno, n.col_offset))
+    # exclude loops of nested defs
+    own = []
+    nested = set()
+    for d in ast.walk(func.node):
+        if isinstance(d, ast.FunctionDef) and d is not func.node:
+            for n in ast.walk(d):
+                nested.add(id(n))
+    own = [n for n in nodes if id(n) not in nested]
+    try:
+        ordinal = own.index(s) + 1
+    except ValueError:
+        return spec, None
+    anchor = '%s#%d' % (kind, ordinal)
+    blocks = ex.specs.loops.get(func.qualname, [])
+    for node, opts in blocks:
+        if opts.get('anchor') == anchor:
+            spec.node = node
+            spec.opts = opts
+            return spec, anchor
+    return spec, anchor
+
+
+def eval_spec_exprs(C, node, st, fr, extra_env):
+    """evaluate the statements of a @loops block in the function's frame: returns
+    {'invariant': [(label, formula)], 'variant': term or None}"""
+    ex = C.ex
+    out = {'invariant': [], 'variant': None}
+    if node is None:
+        return out
+    saved = (ex.spec_mode, ex.spec_pre, ex.spec_result, C.ctx)
+    names = set(extra_env) | {n.id for n in ast.walk(node) if isinstance(n, ast.Name) and isinstance(n.ctx, ast.Store)}
+    sfr = ex.new_frame(st, None, fr.fid, fr.owner, fr.module, locals_set=names)
+    sfr.func = None
+    st.envs[sfr.fid].update(extra_env)
+    ex.spec_mode, ex.spec_pre, ex.spec_result, C.ctx = 'post', extra_env.get('__pre__'), None, None
+    try:
+        for stt in node.body:
+            if isinstance(stt, ast.Expr) and isinstance(stt.value, ast.Call) and isinstance(stt.value.func, ast.Name):
+                fn = stt.value.func.id
+                if fn == 'invariant':
+                    f = C.spec_bool(stt.value.args[0], st, sfr)
+                    out['invariant'].append((ast.unparse(stt.value.args[0]), f))
+                    continue
+                if fn == 'variant':
+                    v = C.spec_eval(stt.value.args[0], st, sfr)
+                    out['variant'] = v.t
+                    continue
+            if isinstance(stt, ast.Assign):
+                v = C.spec_eval(stt.value, st, sfr)
+                st.envs[sfr.fid][stt.targets[0].id] = v
+                continue
+            if isinstance(stt, ast.Expr) and isinstance(stt.value, ast.Constant):
+                continue
+            raise Unsupported('statement in @loops block')
+    finally:
+        ex.spec_mode, ex.spec_pre, ex.spec_result, C.ctx = saved
+        st.envs.pop(sfr.fid, None)
+    return out
+
+
+def valid(asm, goal, timeout=3000):
+    s = z3.Solver()
+    s.set('timeout', timeout)
+    for a in asm:
+        s.add(a)
+    s.add(z3.Not(goal))
+    return s.check() == z3.unsat
+
+
+def discover_writes(C, run_body, make_head, pre, fr, it_name, rounds=4):
+    ex = C.ex
+    live = live_frames(ex, fr)
+    W = Writes()
+    for _ in range(rounds):
+        head = make_head(W)
+        h0 = head.fork()
+        with Muted(ex):
+            outs = run_body(head)
+        changed = False
+        hn = set(h0.ghost.get('_havoc_names', set())) | {str(it_name)}
+        for (fid, name), _v in W.locals.items():
+            cur = h0.envs.get(fid, {}).get(name)
+            if cur is not None and hasattr(cur, 't'):
+                fc = free_consts(cur.t)
+                hn |= (fc or set())
+        for o in outs:
+            if o.kind in ('ok', 'cnt', 'brk', 'ret', 'exc'):
+                changed |= W.merge(diff_state(h0, o.st, live, hn))
+        if not changed:
+            return W
+    return W
+
+
+def counter_candidates(C, W, pre, head_of):
+    """Houdini pool over integer ghosts / int locals written in the loop:
+    g == g_pre + d*i (d in -1,0,1), pair and triple sums constant, g >= g_pre, g <= g_pre"""
+    cands = []
+    names = sorted(W.ghost)
+    get = lambda st, k: st.ghost[k].t      # noqa
+
+    def mk(label, f):
+        cands.append((label, f))
+    ints = [k for k in names if isinstance(pre.ghost.get(k), SInt)]
+    for k in ints:
+        for d in (-1, 0, 1):
+            mk('%s == old + %d*i' % (k[2:], d),
+               lambda st, i, k=k, d=d: (get(st, k) == get(pre, k) + d * i) if i is not None else None)
+        mk('%s >= old' % k[2:], lambda st, i, k=k: get(st, k) >= get(pre, k))
+        mk('%s <= old' % k[2:], lambda st, i, k=k: get(st, k) <= get(pre, k))
+    import itertools
+    for r in (2, 3):
+        for ks in itertools.combinations(ints, r):
+            mk('+'.join(k[2:] for k in ks) + ' constant',
+               lambda st, i, ks=ks: sum(get(st, k) for k in ks) == sum(get(pre, k) for k in ks))
+    return cands
+
+
+def cut_loop(C, kind, s, st, fr, L=None):
+    ex = C.ex
+    pre = st.fork()
+    live = live_frames(ex, fr)
+    uspec, anchor = user_loop_spec(C, s, fr, kind)
+    unode = getattr(uspec, 'node', None)
+    fname = fr.func.qualname if fr.func else '?'
+    props = ex.cur_props or []
+    i = fresh_int('it')        # iteration index (for loops: position; while loops: count)
+
+    def bind_target(h):
+        "for loops: bind the loop variable to the i-th element; returns outcomes"
+        if kind != 'for':
+            return [Out('ok', None, h)]
+        h.assume(i >= 0)
+        h.assume(i < L.length)
+        e = L.elem(i)
+        for f in index_facts(L, i):
+            h.assume(f)
+        for f in L.facts:
+            h.assume(f(e))
+        x = C.wrap(L.ek, e)
+        if isinstance(x, SRef):
+            h.note_ref(x.cname, e)
+            if isinstance(x.cls, str) is False:
+                h.assume(e >= 1)
+        return ex.assign(s.target, x, h, fr)
+
+    def guard_outs(h):
+        "while loops: evaluate the guard; returns [(cond z3, state)] pairs via outcomes"
+        return ex.ev(s.test, h, fr)
+
+    def run_body(h):
+        outs = []
+        if kind == 'for':
+            for o0 in bind_target(h):
+                if o0.kind != 'ok':
+                    outs.append(o0)
+                else:
+                    outs += ex.run_block(s.body, o0.st, fr)
+            return outs
+        for og in guard_outs(h):
+            if og.kind != 'ok':
+                outs.append(og)
+                continue
+            b = ex.truth(og.val, og.st, fr)
+            if not ex.sat(og.st, b):
+                continue
+            og.st.assume(b)
+            outs += ex.run_block(s.body, og.st, fr)
+        return outs
+
+    def make_head(W, invs=(), with_i=True):
+        h = havoc_state(C, pre, W, 'head')
+        h.assume(i >= 0)
+        for lab, f in invs:
+            t = f(h, i)
+            if t is not None:
+                h.assume(t)
+        return h
+
+    # ---- 1. what does the body write?
+    W = discover_writes(C, run_body, lambda w: make_head(w), pre, fr, i)
+    # ---- 2. candidate invariants
+    cands = counter_candidates(C, W, pre, None)
+    hk = ex.hooks.get('loop_candidates')
+    if hk:
+        cands += hk(C, kind, s, L, W, pre, fr, i)
+    user = []
+
+    def user_invs(state, it):
+        if unode is None:
+            return []
+        env = {'__pre__': pre}
+        if it is not None:
+            env['it'] = SInt(it)
+        return eval_spec_exprs(C, unode, state.fork(), fr, env)['invariant']
+    if unode is not None:
+        for idx, (lab, _) in enumerate(user_invs(pre, z3.IntVal(0))):
+            user.append((lab, lambda st_, it, idx=idx: user_invs(st_, it)[idx][1]))
+    # ---- 3. Houdini over auto candidates (user invariants are assumed and checked as obligations)
+    alive = list(cands)
+    alive = [(lab, f) for lab, f in alive if _holds_init(C, pre, f)]
+    for _round in range(6):
+        head = make_head(W, alive + user)
+        with Muted(ex):
+            outs = run_body(head)
+        dropped = False
+        keep = []
+        for lab, f in alive:
+            ok = True
+            for o in outs:
+                if o.kind in ('ok', 'cnt'):
+                    t = f(o.st, i + 1)
+                    if t is None:
+                        continue
+                    if not valid(C.assumptions(o.st), t, 1500):
+                        ok = False
+                        break
+            if ok:
+                keep.append((lab, f))
+            else:
+                dropped = True
+        alive = keep
+        if not dropped:
+            break
+    # ---- 4. the real run
+    results = []
+    # user invariants: initiation
+    for lab, f in user:
+        t = f(pre, z3.IntVal(0))
+        ex.col.add('INV', props, fname, '%s:init:%s' % (anchor, lab[:60]), 'loop invariant holds on entry: ' + lab,
+                   C.assumptions(pre), t)
+    head = make_head(W, alive + user)
+    v0 = None
+    if unode is not None:
+        v0 = eval_spec_exprs(C, unode, head.fork(), fr, {'__pre__': pre, 'it': SInt(i)})['variant']
+    outs = run_body(head)
+    exits = []
+    for o in outs:
+        if o.kind in ('ok', 'cnt'):
+            for lab, f in user:
+                t = f(o.st, i + 1)
+                ex.col.add('INV', props, fname, '%s:pres:%s' % (anchor, lab[:60]),
+                           'loop invariant preserved: ' + lab, C.assumptions(o.st), t)
+            if v0 is not None:
+                v1 = eval_spec_exprs(C, unode, o.st.fork(), fr, {'__pre__': pre, 'it': SInt(i + 1)})['variant']
+                ex.col.add('VAR', props, fname, '%s:variant' % anchor, 'variant decreases and is bounded below',
+                           C.assumptions(o.st), z3.And(v0 >= 0, v1 < v0))
+        elif o.kind == 'brk':
+            exits.append(Out('ok', None, o.st))
+        else:
+            results.append(o)
+    # ---- 5. exit state
+    ex_head = havoc_state(C, pre, W, 'exit')
+    if kind == 'for':
+        ex_head.assume(i == L.length)
+    else:
+        ex_head.assume(i >= 0)
+    for lab, f in alive + user:
+        t = f(ex_head, i)
+        if t is not None:
+            ex_head.assume(t)
+    hk = ex.hooks.get('loop_exit')
+    if hk:
+        hk(C, kind, s, L, W, pre, ex_head, fr)
+    if kind == 'while':
+        for og in guard_outs(ex_head):
+            if og.kind != 'ok':
+                results.append(og)
+                continue
+            b = ex.truth(og.val, og.st, fr)
+            if ex.sat(og.st, z3.Not(b)):
+                og.st.assume(z3.Not(b))
+                exits.append(Out('ok', None, og.st)) if not s.orelse else exits.extend(
+                    ex.run_block(s.orelse, og.st, fr))
+    else:
+        if s.orelse:
+            exits.extend(ex.run_block(s.orelse, ex_head, fr))
+        else:
+            exits.append(Out('ok', None, ex_head))
+    ex.col.notes.append({'loop': '%s %s' % (fname, anchor), 'inferred': [lab for lab, _ in alive],
+                         'declared': [lab for lab, _ in user], 'writes_heap': sorted('%s.%s' % k for k in W.heap)})
+    return results + exits
+
+
+def _holds_init(C, pre, f):
+    t = f(pre, z3.IntVal(0))
+    if t is None:
+        return True
+    return valid(C.assumptions(pre), t, 1000)
+
+
+def for_cut(C, s, it, st, fr):
+    L = iter_to_abs(C, it, st, fr)
+    return cut_loop(C, 'for', s, st, fr, L)
+
+
+def while_cut(C, s, st, fr):
+    return cut_loop(C, 'while', s, st, fr, None)
